@@ -272,8 +272,7 @@ theorem Spec.Api.spawn_living (a a' : Api) (wi : Int) (off : Nat) (h : a.spawn w
     by the reference, and the states stay related -/
 theorem add_spawn_refines {s : Sim} {a : Api} (h : ApiInv s a) (d : WarriorData)
     (hcode : ∀ x ∈ d.code.toList, x.a < s.m ∧ x.b < s.m) (hstart : d.StartOK)
-    (wi : Int) (h0 : 0 ≤ wi) (hwi : wi.toNat = s.warriors.size) (off : UInt64)
-    (hoff : off.toNat < 2 ^ 63) :
+    (wi : Int) (h0 : 0 ≤ wi) (hwi : wi.toNat = s.warriors.size) (off : UInt64) :
     ∃ s' a', (s.addWarrior d).spawn wi off = .ok (s', true) ∧
       (a.add (d.code.toList.map Instr.abs) d.start.toNat).spawn wi off.toNat = some a' ∧
       ApiInv s' a' ∧ s'.m = s.m ∧ s'.warriors.size = s.warriors.size + 1 ∧
@@ -287,7 +286,8 @@ theorem add_spawn_refines {s : Sim} {a : Api} (h : ApiInv s a) (d : WarriorData)
   have hlt : wi.toNat < (s.addWarrior d).warriors.size := by rw [hsize, hwi]; exact Nat.lt_succ_self _
   have hstate : (s.addWarrior d).warriors[wi.toNat].state = .added := by
     simp only [Sim.addWarrior, hwi, Array.getElem_push_eq]
-  rcases spawn_cases hinvA.starts wi hoff with hc | hc
+  rcases spawn_cases hinvA.starts wi off (by have := hinvA.wf.m3; omega)
+    (by have := hinvA.m32; omega) with hc | hc
   · exfalso
     rcases hc with hc | hc | ⟨_, hc⟩
     · omega
@@ -350,7 +350,7 @@ theorem Cli.round_invalid (cfg : Config) (ws : List WarriorData) (place : UInt64
 
 /-- the two-warrior round, step by step, next to the reference battle -/
 theorem round_refines {cfg : Config} {w1 w2 : WarriorData} {place : UInt64} {s0 : Sim}
-    (hnew : Sim.new cfg = some s0) (hpre : RoundPre cfg w1 w2) (hplace : place.toNat < 2 ^ 63) :
+    (hnew : Sim.new cfg = some s0) (hpre : RoundPre cfg w1 w2) :
     ∃ (s3 : Sim) (a1 a2 : Api),
       ((Api.new cfg.coreSize.toNat cfg.readLimit.toNat cfg.writeLimit.toNat cfg.processes.toNat
           cfg.cycles.toNat).add (w1.code.toList.map Instr.abs) w1.start.toNat).spawn 0 0
@@ -365,10 +365,10 @@ theorem round_refines {cfg : Config} {w1 w2 : WarriorData} {place : UInt64} {s0 
   have hsz0 : s0.warriors.size = 0 := by rw [← hinv0.rel.len]; rfl
   obtain ⟨s1, a1, e1, f1, hinv1, hm1, hsz1, _⟩ :=
     add_spawn_refines hinv0 w1 (by rw [hm0]; exact hpre.code1) hpre.start1 0 (Int.le_refl _)
-      (by rw [hsz0]; rfl) 0 (by decide)
+      (by rw [hsz0]; rfl) 0
   obtain ⟨s2, a2, e2, f2, hinv2, _, hsz2, hl2⟩ :=
     add_spawn_refines hinv1 w2 (by rw [hm1, hm0]; exact hpre.code2) hpre.start2 1 (by decide)
-      (by rw [hsz1, hsz0]; rfl) place hplace
+      (by rw [hsz1, hsz0]; rfl) place
   have hlen2 : a2.ws.length = 2 := by rw [hinv2.rel.len, hsz2, hsz1, hsz0]
   obtain ⟨s3, h3, hrel3, _, hres, hlen, hany⟩ :=
     runLoop_survivor_of_rel ⟨hinv2.wf, hinv2.m32, hinv2.rl, hinv2.wl⟩ hinv2.rel
@@ -381,23 +381,23 @@ theorem round_refines {cfg : Config} {w1 w2 : WarriorData} {place : UInt64} {s0 
   simp only [refBattle, f1', f2, Option.bind_eq_bind, Option.bind_some]
 
 /-- **`fixed_output`.** The survivors the command-line tool reports for a round are those of the
-    reference battle: never a fault, for any placement below 2^63. -/
+    reference battle: never a fault, for ANY placement (any 64-bit offset). -/
 theorem fixed_output {cfg : Config} {w1 w2 : WarriorData} {place : UInt64}
-    (hv : cfg.validate = true) (hpre : RoundPre cfg w1 w2) (hplace : place.toNat < 2 ^ 63) :
+    (hv : cfg.validate = true) (hpre : RoundPre cfg w1 w2) :
     Cli.round cfg [w1, w2] place =
       (refBattle cfg w1 w2 place.toNat).map (fun a => a.ws.map (fun w => w.st == .alive)) ∧
     (refBattle cfg w1 w2 place.toNat).isSome = true := by
   have hnew : ∃ s0, Sim.new cfg = some s0 := by
     unfold Sim.new; rw [if_pos hv]; exact ⟨_, rfl⟩
   obtain ⟨s0, hnew⟩ := hnew
-  obtain ⟨s3, _, a2, _, _, h1, h2, _, h4, _, _⟩ := round_refines hnew hpre hplace
+  obtain ⟨s3, _, a2, _, _, h1, h2, _, h4, _, _⟩ := round_refines (place := place) hnew hpre
   rw [h1, h2, h4]
   exact ⟨rfl, rfl⟩
 
 /-- `fixed_output`, spelled out: the two reference spawns are accepted, and the round reports the
     survivors of the reference `Run` -/
 theorem fixed_output_explicit {cfg : Config} {w1 w2 : WarriorData} {place : UInt64}
-    (hv : cfg.validate = true) (hpre : RoundPre cfg w1 w2) (hplace : place.toNat < 2 ^ 63) :
+    (hv : cfg.validate = true) (hpre : RoundPre cfg w1 w2) :
     ∃ a1 a2 : Api,
       ((Api.new cfg.coreSize.toNat cfg.readLimit.toNat cfg.writeLimit.toNat cfg.processes.toNat
           cfg.cycles.toNat).add (w1.code.toList.map Instr.abs) w1.start.toNat).spawn 0 0
@@ -408,13 +408,13 @@ theorem fixed_output_explicit {cfg : Config} {w1 w2 : WarriorData} {place : UInt
   have hnew : ∃ s0, Sim.new cfg = some s0 := by
     unfold Sim.new; rw [if_pos hv]; exact ⟨_, rfl⟩
   obtain ⟨s0, hnew⟩ := hnew
-  obtain ⟨s3, a1, a2, f1, f2, h1, _, _, h4, _, _⟩ := round_refines hnew hpre hplace
+  obtain ⟨s3, a1, a2, f1, f2, h1, _, _, h4, _, _⟩ := round_refines (place := place) hnew hpre
   exact ⟨a1, a2, f1, f2, by rw [h1, h4]⟩
 
 /-- **`cli_round_ok`.** A two-warrior round reports on both warriors, and at least one of them
     has survived. -/
 theorem cli_round_ok {cfg : Config} {w1 w2 : WarriorData} {place : UInt64} {alive : List Bool}
-    (hpre : RoundPre cfg w1 w2) (hplace : place.toNat < 2 ^ 63)
+    (hpre : RoundPre cfg w1 w2)
     (h : Cli.round cfg [w1, w2] place = some alive) :
     alive.length = 2 ∧ alive ≠ [false, false] := by
   cases hv : cfg.validate
@@ -422,7 +422,7 @@ theorem cli_round_ok {cfg : Config} {w1 w2 : WarriorData} {place : UInt64} {aliv
   · have hnew : ∃ s0, Sim.new cfg = some s0 := by
       unfold Sim.new; rw [if_pos hv]; exact ⟨_, rfl⟩
     obtain ⟨s0, hnew⟩ := hnew
-    obtain ⟨s3, _, a2, _, _, h1, _, _, _, hlen, hany⟩ := round_refines hnew hpre hplace
+    obtain ⟨s3, _, a2, _, _, h1, _, _, _, hlen, hany⟩ := round_refines (place := place) hnew hpre
     rw [h1] at h
     cases h
     refine ⟨hlen, ?_⟩
@@ -474,11 +474,11 @@ theorem Cli.tally_foldlM (round : UInt64 → Option (List Bool)) (places : List 
     for a two-warrior battle add up: every round is a win for warrior 1, a win for warrior 2 or
     a tie, and both warriors are credited with the same number of ties. -/
 theorem cli_tally_partition {cfg : Config} {w1 w2 : WarriorData} {places : List UInt64}
-    {t : Cli.Tally} (hpre : RoundPre cfg w1 w2) (hplaces : ∀ p ∈ places, p.toNat < 2 ^ 63)
+    {t : Cli.Tally} (hpre : RoundPre cfg w1 w2)
     (h : Cli.battles cfg [w1, w2] places = some t) :
     t.w1win + t.w2win + t.w1tie = places.length ∧ t.w1tie = t.w2tie := by
   obtain ⟨h1, h2⟩ := Cli.tally_foldlM (fun p => Cli.round cfg [w1, w2] p) places
-    (fun p hp alive hr => cli_round_ok hpre (hplaces p hp) hr) {} t h
+    (fun p _ alive hr => cli_round_ok hpre hr) {} t h
   constructor
   · simpa using h1
   · have h3 : (t.w1tie : Int) - t.w2tie = 0 := by simpa using h2
@@ -486,17 +486,16 @@ theorem cli_tally_partition {cfg : Config} {w1 w2 : WarriorData} {places : List 
 
 /-- under the same hypotheses the battle loop never faults (for a valid configuration) -/
 theorem cli_battles_some {cfg : Config} {w1 w2 : WarriorData} {places : List UInt64}
-    (hv : cfg.validate = true) (hpre : RoundPre cfg w1 w2)
-    (hplaces : ∀ p ∈ places, p.toNat < 2 ^ 63) :
+    (hv : cfg.validate = true) (hpre : RoundPre cfg w1 w2) :
     ∃ t, Cli.battles cfg [w1, w2] places = some t := by
   unfold Cli.battles
   generalize ({} : Cli.Tally) = t0
   induction places generalizing t0 with
   | nil => exact ⟨t0, rfl⟩
   | cons p ps ih =>
-    have hsome := (fixed_output hv hpre (hplaces p List.mem_cons_self))
+    have hsome := (fixed_output (place := p) hv hpre)
     obtain ⟨a, ha⟩ := Option.isSome_iff_exists.mp hsome.2
     rw [List.foldlM_cons, hsome.1, ha]
-    exact ih (fun q hq => hplaces q (List.mem_cons_of_mem _ hq)) _
+    exact ih _
 
 end Gmars
